@@ -106,7 +106,7 @@ theorem reply_m {fp : FdlParams} {g g' : G} (hI : Dp.Inv fp g) {a : UInt8} {t : 
       by_cases h' : g.out = some a
       · exact h'
       · exact absurd (Or.inl h') hc
-    obtain ⟨i, p, hcur, -⟩ := hI.out a ho
+    obtain ⟨i, p, hcur⟩ := hI.out a ho
     cases hr : Master.receiveReply g.m a t with
     | panic => rw [hr] at h; cases h
     | ok m' =>
